@@ -5,10 +5,12 @@
 #include "vp_stubs.hpp"
 #include <tbox/network/tcp_server.h>
 #include <tbox/network/sockaddr.h>
+#include <sys/socket.h>
 // ---- link seam: network::TcpServer (one connection), network::SockAddr -------------------------------------------
 static int  g_sent_idx[16]; static int g_nsent;       // index digit of every response written to the connection, in order
 static int  g_disconnects, g_shutdowns; static bool g_valid; static bool g_send_pending; static void *g_ctx;
 static int  g_sent_after_disconnect;
+static bool g_rd_shut;                                 // the server shut the receive direction down: the transport then reads EOF and reports a disconnect (see below)
 static size_t g_rx_threshold;                         // the receive threshold the server registers: the transport (BufferedFd) calls back only when at least that much is unconsumed
 namespace tbox { namespace network {
 struct TcpServer::Data {};
@@ -29,7 +31,7 @@ bool TcpServer::send(const ConnToken &, const void *p, size_t n) {
     g_nsent++; g_send_pending = true; return true;
 }
 bool TcpServer::disconnect(const ConnToken &) { g_disconnects++; g_valid = false; g_send_pending = false; return true; }
-bool TcpServer::shutdown(const ConnToken &, int) { g_shutdowns++; return true; }
+bool TcpServer::shutdown(const ConnToken &, int how) { g_shutdowns++; if (how == SHUT_RD || how == SHUT_RDWR) g_rd_shut = true; return true; }
 bool TcpServer::isClientValid(const ConnToken &) const { return g_valid; }
 SockAddr TcpServer::getClientAddress(const ConnToken &) const { return SockAddr(); }
 void TcpServer::setContext(const ConnToken &, void *c, ContextDeleter &&) { g_ctx = c; }
@@ -75,7 +77,7 @@ extern "C" void h_pipeline() {
         ctx->res().body = std::string("R") + char('0' + i);
         if (i <= NREQ && !((g_inline_mask >> i) & 1)) g_slot[i] = ctx;      // completes later: keep the context alive
     });
-    g_rx_threshold = 0;
+    g_rx_threshold = 0; g_rd_shut = false;
     VP_ASSERT(srv.initialize(network::SockAddr(), 1), "server initialize (registers its callbacks at the transport)");
     cabinet::Token ct(1, 0);
     impl->onTcpConnected(ct);
@@ -107,6 +109,9 @@ extern "C" void h_pipeline() {
         else buff.append(r, n);
     }
     DELIVER();
+    // what the real transport does after shutdown(SHUT_RD): the socket reads end-of-file, network::TcpConnection treats that like a peer close,
+    // TcpServer drops the connection and reports it - before any late handler has completed
+    if (g_rd_shut && g_valid) { g_valid = false; impl->onTcpDisconnected(ct); }
     int expected = (close_at < NREQ) ? (int)close_at + 1 : NREQ;     // requests after the closing one get no response
     // late completions in a symbolic order, send-complete notifications at symbolic moments
     for (int step = 0; step < NREQ; step++) {
